@@ -582,16 +582,22 @@ fn judge(root: &Path, schema: &gen::SchemaInfo, world: &World, recs: &[Rec], inf
   };
   // map recovered entries onto the log's records, in order
   let rec_ops: Vec<(usize, bool)> = recs.iter().filter_map(|r| if let RecKind::Op(o) = r.kind { Some((o, r.synced)) } else { None }).collect();
-  let mut ptr = 0;
+  // Identical operations can occur more than once in the log (two `delete d0` records carry the
+  // same bytes), so an entry does not identify its record by content alone. Entries are matched
+  // from the END of the log backwards: this is the order-preserving embedding that assigns every
+  // entry the latest possible record, i.e. it attributes a recovered entry to a still-pending record
+  // whenever any order-preserving attribution does (a left-to-right match blamed an earlier,
+  // already committed twin and then reported the pending one as lost: a false alarm, seed 6).
+  let mut ptr = rec_ops.len();
   let mut recovered_ids = Vec::new();
-  for e in entries.iter() {
+  for e in entries.iter().rev() {
     if matches!(e, WalEntry::Commit) {
       continue;
     }
     let mut found = None;
-    while ptr < rec_ops.len() {
+    while ptr > 0 {
+      ptr -= 1;
       let (o, _) = rec_ops[ptr];
-      ptr += 1;
       if entry_matches(e, &world.ops[o]) {
         found = Some(o);
         break;
@@ -605,6 +611,7 @@ fn judge(root: &Path, schema: &gen::SchemaInfo, world: &World, recs: &[Rec], inf
       }
     }
   }
+  recovered_ids.reverse();
   // every pending operation whose record survives completely must be recovered
   for (o, synced) in rec_ops.iter() {
     if world.status[*o] == Status::Pending && !recovered_ids.contains(o) {
@@ -623,7 +630,13 @@ fn judge(root: &Path, schema: &gen::SchemaInfo, world: &World, recs: &[Rec], inf
       };
       problems.push((
         format!("pending-op-not-recovered:{}:{}", if *synced { "synced" } else { "unsynced-but-durable" }, if behind_garbage { "behind-torn-record" } else { "no-garbage-before" }),
-        format!("operation {} ({}) survives completely in the log but was not recovered", o, world.ops[*o].to_json()),
+        format!(
+          "operation {} ({}) survives completely in the log but was not recovered [log records: {}; recovered: {:?}]",
+          o,
+          world.ops[*o].to_json(),
+          recs.iter().map(|r| match &r.kind { RecKind::Op(x) => format!("op{}:{:?}{}", x, world.status[*x], if r.synced { "/synced" } else { "" }), k => format!("{k:?}") }).collect::<Vec<_>>().join(" "),
+          recovered_ids
+        ),
       ));
       break;
     }
